@@ -62,7 +62,8 @@ var rewriteVals = []string{
 }
 var webPaths = []string{"", "/", "/ads.js", "/banner/728x90/img.png", "/path/AdS.js?x=1", "/adsadsads/ads.gif", "/img/banner.png?track=1", "/trackertracker/t.js"}
 var pathPatterns = []string{"/ads.js", "/banner/*/img", "/adsads", "ads.gif|", "/img/banner", "track=", "/AdS.js", "/tracker"}
-var typeOpts = []string{"script", "image", "~script", "subdocument", "xmlhttprequest", "script,image", "~image,~other", "document", "stylesheet"}
+var typeOpts = []string{"script", "image", "~script", "subdocument", "xmlhttprequest", "script,image", "~image,~other", "document", "stylesheet",
+	"object", "media", "font,stylesheet", "websocket", "ping", "other", "popup", "media,mp4", "script,empty", "first-party", "~websocket,~ping"}
 var selectors = []string{".banner", "#ad", "div.ads", ".track > a", "[data-ad]"}
 
 // PickHosts draws the per-run host alphabet (a small subset, so that lists
@@ -405,13 +406,21 @@ func GenRule(ch *core.Chooser, k int, hosts []string, prev []string) string {
 		}
 		return "/AdS.js$match-case"
 	case KCosmetic:
-		switch ch.Intn("rule.cosform", 4) {
+		switch ch.Intn("rule.cosform", 8) {
 		case 0:
 			return "##" + pick(ch, "rule.sel", selectors)
 		case 1:
 			return h + "##" + pick(ch, "rule.sel", selectors)
 		case 2:
 			return h + "," + pick(ch, "rule.host2", hosts) + "##" + pick(ch, "rule.sel", selectors)
+		case 4:
+			// any public suffix
+			return strings.SplitN(h, ".", 2)[0] + ".*##" + pick(ch, "rule.sel", selectors)
+		case 5:
+			return h + ",~www." + h + "##" + pick(ch, "rule.sel", selectors)
+		case 6:
+			// not supported by this version: must be skipped alike everywhere
+			return h + []string{"#?#", "#$#", "#%#", "#@?#"}[ch.Intn("rule.cosmarker", 4)] + pick(ch, "rule.sel", selectors)
 		default:
 			return "~" + h + "##" + pick(ch, "rule.sel", selectors)
 		}
